@@ -40,7 +40,8 @@ def prepare(scratch, d1, opt, how):
         return None
     which, pyc = how[:-1], how[-1] == '+'
     d0 = {'same': d1, 'other': OTHER[d1], 'sibling': SIBLING[d1]}[which]
-    cache.seq_run(scratch, CLOCK0, [(pyc, [('define', d0, opt)])])
+    # a second process loads the module the first one wrote: that is when the import system leaves bytecode
+    cache.seq_run(scratch, CLOCK0, [(pyc, [('define', d0, opt)]), (pyc, [('define', d0, opt)])])
     return cache.snapshot_dir(scratch)
 
 
@@ -172,10 +173,29 @@ def explore_pair(scratch, init, iname, d1, d2, opt, ticks, st, cap, wb=(True, Tr
             if why:
                 kind = 'definition fails' if 'definition failed' in why else 'runs wrong or truncated code'
                 trace = [(pid, op, os.path.basename(path) if path else None) for (pid, op, path, detail) in run.log]
+                if not any(v['sig'] == 'interleaving: %s' % kind for v in st.violations):
+                    # bind to reality: the recorded schedule is replayed with two real interpreter processes
+                    cache.restore_dir(scratch, init)
+                    rres, rerr = cache.real_conc_replay(scratch, CLOCK0, run.log, (d1, d2), opt, wb)
+                    st.inc('real_schedule_replays')
+                    rwhy = None if rerr else cache.judge(decl, rres[pi] if rres[pi] else ('failed', 'NoResult', ''))
+                    if rerr or not rwhy:
+                        st.notes.append('HARNESS: schedule %r of (%s,%s) init=%s violates in the harness (%s) but the real-process replay says: %s' % (
+                            run.choices, d1, d2, iname, why, rerr or 'no violation'))
+                        continue
+                    why += ' [reproduced by two real interpreter processes held to the same schedule: %s]' % rwhy
                 st.violate('interleaving: %s' % kind,
                            'init=%s; P0 defines %s, P1 defines %s (%s, bytecode %r), schedule %r: process %d: %s | steps: %s' % (
                                iname, d1, d2, opt, wb, run.choices, pi, why, ' '.join('%s%s:%s' % ('P', t[0], t[1]) if t[0] is not None else 'tick' for t in trace)),
                            {'kind': 'conc', 'd1': d1, 'd2': d2, 'opt': opt, 'init': init_how[iname], 'schedule': run.choices, 'ticks': ticks, 'wb': list(wb)})
+        if nruns[0] in (1, 7) and not any(cache.judge(d, r[0] if r else ('failed', 'x', '')) for d, r in ((d1, results[0]), (d2, results[1]))):
+            # a passing schedule too: the real processes must take exactly these steps and behave the same
+            cache.restore_dir(scratch, init)
+            rres, rerr = cache.real_conc_replay(scratch, CLOCK0, run.log, (d1, d2), opt, wb)
+            st.inc('real_schedule_replays')
+            if rerr or rres[0] != results[0][0] or rres[1] != results[1][0]:
+                st.notes.append('HARNESS: schedule %r of (%s,%s) init=%s: real-process replay disagrees with the harness: %s' % (
+                    run.choices, d1, d2, iname, rerr or 'different outcomes'))
         for i in range(len(prefix), len(run.points)):
             k = run.keys[i]
             if k in visited:
@@ -276,6 +296,7 @@ def run(tier):
         'crash_points': a.n.get('crash_runs', 0), 'distinct_crash_states': a.count('states'), 'follow_up_definitions': a.n.get('followups', 0),
         'interleaving_states': b.count('states'), 'schedules_executed': b.n.get('schedules', 0), 'pairs_explored': b.n.get('pairs', 0),
         'pairs_where_the_schedule_cap_was_hit': capped, 'real_process_replays': st.n.get('real_replays', 0),
+        'schedules_replayed_with_two_real_processes': st.n.get('real_schedule_replays', 0),
         'rule': 'crash: a definition is killed before every interposed file-system step and after every character of every write (%s) from %d initial '
                 'cache states; from every distinct resulting directory a fresh process defines the same / the same-length sibling / another declaration; '
                 'interleavings: depth-first search over all schedules of the file-system steps of two defining processes with <=1 clock tick, pruned by a '
